@@ -730,10 +730,19 @@ pub fn last_panic_loc() -> String {
 
 pub fn solve(solver: &mut dyn chalk_solve::Solver<I>, db: &FaultDb<'_>, goal: &UGoal) -> Outcome {
     db.arm();
-    match catch_unwind(AssertUnwindSafe(|| solver.solve(db, goal))) {
+    let trace = std::env::var_os("VERIF_TRACE").is_some();
+    let t0 = std::time::Instant::now();
+    if trace {
+        eprintln!("[trace] {} solve {:?}", db.solver, goal.canonical.value.goal);
+    }
+    let r = match catch_unwind(AssertUnwindSafe(|| solver.solve(db, goal))) {
         Ok(a) => Outcome::Answer(a),
         Err(e) => classify_unwind(e),
+    };
+    if trace {
+        eprintln!("[trace]   -> {} ({} callbacks, {:?})", r.show(), db.calls.get(), t0.elapsed());
     }
+    r
 }
 
 pub fn solve_limited(solver: &mut dyn chalk_solve::Solver<I>, db: &FaultDb<'_>, goal: &UGoal, f: &dyn Fn() -> bool) -> Outcome {
